@@ -291,18 +291,11 @@ public:
                this->the_first = list.last()->next();
          }
          else if(last() == list.last())
-            this->the_last = list.last()->prev();
+            this->the_last = list.first()->prev();
          else
          {
-            T* after = first();
-
-            for(; after->next() != list.first(); after = after->next())
-               ;
-
-            if(last() == list.last())
-               this->the_last = after;
-            else
-               after->next() = list.last()->next();
+            list.last()->next()->prev() = list.first()->prev();
+            list.first()->prev()->next() = list.last()->next();
          }
       }
    }
